@@ -536,7 +536,8 @@ NextAllowed(n) ==
 
 \* the drift record of an event that does not follow the ladder (empty set when it does, or when the check is opaque)
 RungDrift(n, e) ==
-  IF Opaque(n) \/ (e.ev = "idp" /\ e.answer = "odd") \/ Lbl(e) \in NextAllowed(n) THEN {}
+  \* (a filter that is handed the key provider object itself makes its key lookups unobserved: the ladder has a hole there)
+  IF Opaque(n) \/ ~flt[Req(n).f].keysObserved \/ (e.ev = "idp" /\ e.answer = "odd") \/ Lbl(e) \in NextAllowed(n) THEN {}
   ELSE {[sc |-> sc, n |-> n, expect |-> "one-of-the-ladder's-next-rungs", got |-> Lbl(e)]}
 
 ---------------------------------------------------------------------------
